@@ -295,7 +295,7 @@ def exec_case(ctx, case):
 
 def run(ctx):
     n = ctx.n(250, 2500)
-    opts = H.Opts(max_ops=12, math_builtins=False)
+    opts = H.Opts(max_ops=12, math_builtins=False, fresh=True)
     drive(ctx, cases(opts), lambda c: exec_case(ctx, c), n, salt=1, label="C17")
 
 
